@@ -69,6 +69,8 @@ pub enum Prior {
     Absent,
     SameVersion,
     OtherVersion,
+    /// a record of *another kind* held under the same key (a scratchpad and a transaction of one owner share their key)
+    OtherKind,
 }
 
 #[derive(Clone, Debug)]
@@ -108,6 +110,8 @@ pub struct Upload {
     pub with_payment: Box<dyn Fn(&ant_evm::ProofOfPayment) -> Record + Send + Sync>,
     pub prior_same: Record,
     pub prior_other: Option<Record>,
+    /// a valid record of another kind that lives under the same key
+    pub prior_other_kind: Option<Record>,
 }
 
 pub fn upload_for(kind: Kind) -> Upload {
@@ -115,26 +119,26 @@ pub fn upload_for(kind: Kind) -> Upload {
         Kind::Chunk => {
             let c = rec::chunk(b"c03 chunk payload");
             let c2 = c.clone();
-            Upload { key: rec::chunk_key(&c), with_payment: Box::new(move |p| rec::paid_chunk_record(p, &c2)), prior_same: rec::chunk_record(&c), prior_other: None }
+            Upload { key: rec::chunk_key(&c), with_payment: Box::new(move |p| rec::paid_chunk_record(p, &c2)), prior_same: rec::chunk_record(&c), prior_other: None, prior_other_kind: None }
         }
         Kind::Scratchpad => {
             let s = rec::pad(5, 2, b"pad v2", 5);
             let older = rec::pad(5, 1, b"pad v1", 5);
             let s2 = s.clone();
-            Upload { key: rec::pad_key(&s), with_payment: Box::new(move |p| rec::paid_pad_record(p, &s2)), prior_same: rec::pad_record(&s), prior_other: Some(rec::pad_record(&older)) }
+            Upload { key: rec::pad_key(&s), with_payment: Box::new(move |p| rec::paid_pad_record(p, &s2)), prior_same: rec::pad_record(&s), prior_other: Some(rec::pad_record(&older)), prior_other_kind: Some(rec::txs_record(rec::tx_key(&rec::tx(5, 1, 5)), &[rec::tx(5, 1, 5)])) }
         }
         Kind::Transaction => {
             let t = rec::tx(6, 1, 6);
             let other = rec::tx(6, 2, 6);
             let t2 = t.clone();
-            Upload { key: rec::tx_key(&t), with_payment: Box::new(move |p| rec::paid_tx_record(p, &t2)), prior_same: rec::txs_record(rec::tx_key(&t), &[t.clone()]), prior_other: Some(rec::txs_record(rec::tx_key(&t), &[other])) }
+            Upload { key: rec::tx_key(&t), with_payment: Box::new(move |p| rec::paid_tx_record(p, &t2)), prior_same: rec::txs_record(rec::tx_key(&t), &[t.clone()]), prior_other: Some(rec::txs_record(rec::tx_key(&t), &[other])), prior_other_kind: Some(rec::pad_record(&rec::pad(6, 1, b"pad of the transaction's owner", 6))) }
         }
         Kind::Register => {
             let fx = rec::reg_fixture(7, b"c03-reg");
             let r = fx.with_ops(&[0, 1]);
             let other = fx.with_ops(&[2]);
             let r2 = r.clone();
-            Upload { key: rec::reg_key(&r), with_payment: Box::new(move |p| rec::paid_reg_record(p, &r2)), prior_same: rec::reg_record(&r), prior_other: Some(rec::reg_record(&other)) }
+            Upload { key: rec::reg_key(&r), with_payment: Box::new(move |p| rec::paid_reg_record(p, &r2)), prior_same: rec::reg_record(&r), prior_other: Some(rec::reg_record(&other)), prior_other_kind: None }
         }
     }
 }
@@ -227,6 +231,17 @@ pub fn run_case(run: &Run, stub: &Arc<EvmStub>, c: &Case) {
             let r = up.prior_other.clone().expect("other version");
             let _ = rig.run("prior", async move { n.store_replicated_in_record(r).await });
         }
+        Prior::OtherKind => {
+            let n = rig.node.clone();
+            let r = up.prior_other_kind.clone().expect("other kind");
+            if r.key != up.key {
+                run.machinery_error("C03: the record of another kind does not live under the uploaded object's key");
+            }
+            let _ = rig.run("prior", async move { n.store_replicated_in_record(r).await });
+            if rig.stored(&up.key).is_none() {
+                run.machinery_error("C03: the prior record of another kind was not stored");
+            }
+        }
     }
     let before = rig.stored(&up.key);
     let listed_before = rig.listed();
@@ -288,6 +303,20 @@ pub fn run_case(run: &Run, stub: &Arc<EvmStub>, c: &Case) {
                 run.violation("result-matches-effect", single_fault(c), format!("a payment condition fails yet the upload returned Ok for {desc}"), json!({"case": desc}));
             }
         }
+    } else if c.prior == Prior::OtherKind {
+        // The node holds a record of another kind under this key. An upload whose payment fails is, at best, an unpaid upload:
+        // acceptable only as an update of a mutable record the node already holds — and it holds no record of this kind.
+        if !c.all_conditions_hold() {
+            if after != before || listed_after != listed_before {
+                run.violation("invalid-payment-stores-nothing", "held-record-of-another-kind", format!("a payment condition fails, the key holds a record of another kind, and the store changed (result {res:?}) for {desc}"), json!({"case": desc}));
+            }
+            if res.is_ok() {
+                run.violation("result-matches-effect", "held-record-of-another-kind", format!("a payment condition fails (the key holds a record of another kind) yet the upload returned Ok for {desc}"), json!({"case": desc}));
+            }
+        }
+        if after.is_none() {
+            run.violation("held-record-kept", "lost", format!("a held record vanished after an upload for {desc}"), json!({"case": desc}));
+        }
     } else {
         // the key was already held: nothing may disappear, and an immutable chunk never changes
         if after.is_none() {
@@ -304,9 +333,12 @@ pub fn run_case(run: &Run, stub: &Arc<EvmStub>, c: &Case) {
 /// Unpaid uploads: accepted only as updates to mutable records the node already holds.
 fn unpaid_cases(run: &Run, stub: &Arc<EvmStub>) {
     for kind in KINDS {
-        for prior in [Prior::Absent, Prior::SameVersion, Prior::OtherVersion] {
+        for prior in [Prior::Absent, Prior::SameVersion, Prior::OtherVersion, Prior::OtherKind] {
             let up = upload_for(kind);
             if prior == Prior::OtherVersion && up.prior_other.is_none() {
+                continue;
+            }
+            if prior == Prior::OtherKind && up.prior_other_kind.is_none() {
                 continue;
             }
             let root = fresh_scratch("c03u");
@@ -322,6 +354,10 @@ fn unpaid_cases(run: &Run, stub: &Arc<EvmStub>) {
                     let (n, r) = (rig.node.clone(), up.prior_other.clone().unwrap());
                     let _ = rig.run("prior", async move { n.store_replicated_in_record(r).await });
                 }
+                Prior::OtherKind => {
+                    let (n, r) = (rig.node.clone(), up.prior_other_kind.clone().unwrap());
+                    let _ = rig.run("prior", async move { n.store_replicated_in_record(r).await });
+                }
             }
             let before = rig.stored(&up.key);
             let (n, r) = (rig.node.clone(), up.prior_same.clone());
@@ -329,9 +365,13 @@ fn unpaid_cases(run: &Run, stub: &Arc<EvmStub>) {
             let after = rig.stored(&up.key);
             let desc = json!({"unpaid_upload": format!("{kind:?}"), "prior": format!("{prior:?}")});
             run.case(desc.to_string().as_bytes(), true);
-            let held = before.is_some();
+            // "held" = the node holds a record of the uploaded kind under the key (a record of another kind is not something this upload can update)
+            let held = before.is_some() && prior != Prior::OtherKind;
             let mutable_updatable = matches!(kind, Kind::Scratchpad | Kind::Register);
-            if !held && after.is_some() {
+            if prior == Prior::OtherKind && after != before {
+                run.violation("unpaid-needs-held-record", "replaced-a-record-of-another-kind", format!("an unpaid upload changed what the node holds under a key occupied by a record of another kind: {desc} -> {res:?}"), json!({"case": desc}));
+            }
+            if before.is_none() && after.is_some() {
                 run.violation("unpaid-needs-held-record", "stored-new", format!("an unpaid upload created a record: {desc} -> {res:?}"), json!({"case": desc}));
             }
             if !(held && mutable_updatable) && matches!(res, Some(Ok(()))) && after != before {
@@ -348,8 +388,8 @@ fn unpaid_cases(run: &Run, stub: &Arc<EvmStub>) {
 
 pub fn cases(quick: bool) -> Vec<Case> {
     let mut v = vec![];
-    enumerate::product(&[4, 2, 3, 3, 8, 3, 4, 3, 2], |ix| {
-        let c = Case { sig: ix[0], self_payee: ix[1] == 0, all_close: ix[2] == 0, far_known: ix[2] == 2, age: ix[3], chain: ix[4], own_quote_for_address: ix[5] == 0, own_quote_zero: ix[5] == 2, kind: KINDS[ix[6]], prior: [Prior::Absent, Prior::SameVersion, Prior::OtherVersion][ix[7]], age_on_own: ix[8] == 1 };
+    enumerate::product(&[4, 2, 3, 3, 8, 3, 4, 4, 2], |ix| {
+        let c = Case { sig: ix[0], self_payee: ix[1] == 0, all_close: ix[2] == 0, far_known: ix[2] == 2, age: ix[3], chain: ix[4], own_quote_for_address: ix[5] == 0, own_quote_zero: ix[5] == 2, kind: KINDS[ix[6]], prior: [Prior::Absent, Prior::SameVersion, Prior::OtherVersion, Prior::OtherKind][ix[7]], age_on_own: ix[8] == 1 };
         if c.age == 0 && c.age_on_own {
             return; // no age defect: the placement flag is irrelevant
         }
@@ -357,6 +397,9 @@ pub fn cases(quick: bool) -> Vec<Case> {
             return;
         }
         if c.prior == Prior::OtherVersion && c.kind == Kind::Chunk {
+            return;
+        }
+        if c.prior == Prior::OtherKind && !matches!(c.kind, Kind::Scratchpad | Kind::Transaction) {
             return;
         }
         if quick {
@@ -378,7 +421,7 @@ pub fn main(tier: Option<&str>) {
     let run = Run::new("C03", "model_checking", tier);
     run.rule(
         "product of six payment conditions (signatures 4 (incl. a payee listed twice with a forged first quote) x self-payee 2 x closeness 3 (all close / a stranger / a routing-table peer outside the K closest, on a node that knows 44 peers) x age 3 (on another payee's or on the own quote) x \
-         chain answer 8 (paid, this node's quote unpaid, JSON-RPC error, HTTP 503 / 429 / connection closed on every attempt, another payee's quote unpaid while this node's is paid, a five-quote proof of whose first three quotes — none this node's — the contract reports: unpaid) x quoted address 3 (this address, another address, the all-zero content)) x kind 4 x prior content 3; quick = full product for chunks on an empty store + every single \
+         chain answer 8 (paid, this node's quote unpaid, JSON-RPC error, HTTP 503 / 429 / connection closed on every attempt, another payee's quote unpaid while this node's is paid, a five-quote proof of whose first three quotes — none this node's — the contract reports: unpaid) x quoted address 3 (this address, another address, the all-zero content)) x kind 4 x prior content 4 (nothing, the same version, another version, a record of another kind under the same key — scratchpad and transaction of one owner); quick = full product for chunks on an empty store + every single \
          and double fault for the other kinds + single faults on held keys, thorough = full product. Each case runs the real \
          Node::validate_and_store_record on a fresh real SwarmDriver under the default (FIFO) schedule to quiescence, the payment \
          contract answered by a loopback JSON-RPC stub. Plus every unpaid kind x prior content. Non-trivial = at least one condition \
